@@ -275,10 +275,15 @@ func (interp *Interpreter) gta(root *node, rpath, importPath, pkgName string) ([
 					// the key with the basename of the source file.
 					name = filepath.Join(name, baseName)
 					if sym, exists := sc.sym[name]; !exists {
-						sc.sym[name] = &symbol{kind: pkgSym, typ: &itype{cat: binPkgT, path: ipath, scope: sc}}
+						sc.sym[name] = &symbol{kind: pkgSym, typ: &itype{cat: binPkgT, path: ipath, scope: sc}, node: n}
 						break
 					} else if sym.kind == pkgSym && sym.typ.cat == srcPkgT && sym.typ.path == ipath {
 						// ignore re-import of identical package
+						break
+					} else if sym.kind == pkgSym && sym.typ.cat == binPkgT && sym.typ.path == ipath && sym.node != nil && sym.node.anc.anc != n.anc.anc {
+						// ignore re-import of identical package by another source of same
+						// name (i.e. a previous incremental evaluation)
+						sym.node = n
 						break
 					}
 
